@@ -31,7 +31,7 @@ type Case struct {
 func genCase(t *rapid.T) Case {
 	var c Case
 	c.GPUType = rapid.SampledFrom([]string{"r9nano", "r9nano", "mi300a"}).Draw(t, "gputype")
-	c.Prog = kgen.GenProgram(t, kgen.GenOpts{MaxItems: 1536, MaxOps: 24, LDS: true, Partial: true, SubDword: true})
+	c.Prog = kgen.GenProgram(t, kgen.GenOpts{MaxItems: 1536, MaxOps: 24, LDS: true, Partial: true, SubDword: true, SBurst: rapid.Bool().Draw(t, "sbursts")})
 	if c.GPUType == "mi300a" && rapid.IntRange(0, 2).Draw(t, "gfx9") > 0 {
 		// the encodings and the emulator of the architecture the MI300A model is shipped for;
 		// half of them as version-5 code objects (work-item ids packed into v0)
